@@ -33,7 +33,12 @@ TSub ==
      ELSE LET ref == LayBytes(LayK(E.st, E.e, E.R, E.k)) IN
           /\ Judge("C11", ObsFlagUnion(E.st, E.e, E.R, E.k, E.img), Info("flag_union"))
           /\ Judge("C11", (E.k > 0 /\ ~E.first) => ObsFrame(E.st, E.e, E.R, E.k, before, E.img), Info("frame"))
-          /\ Judge("C04", E.img = ref,
+          \* the error status block: ACPI defines the bits, not which of them a COUNT of errors sets -- with more than one
+          \* error the "multiple" bit must be set and the "valid" bit may be; everything else is the reference
+          /\ Judge("C04", E.img = ref \/ (E.st = "gestatus" /\ Len(E.img) = Len(ref) /\ SubSeq(E.img, 2, Len(ref)) = SubSeq(ref, 2, Len(ref))
+                                          /\ E.img[1] \in {ref[1], ref[1] + (IF ref[1] \div 8 % 2 = 1 THEN 2 ELSE 0),
+                                                            ref[1] + (IF ref[1] \div 4 % 2 = 1 THEN 1 ELSE 0),
+                                                            ref[1] + (IF ref[1] \div 8 % 2 = 1 THEN 2 ELSE 0) + (IF ref[1] \div 4 % 2 = 1 THEN 1 ELSE 0)}),
                    \* a recorded deviation is recognised exactly: the image is the reference with the section-type GUID
                    \* truncated to the two bytes the crate's public field can hold, and nothing else differs
                    IF E.st = "gedata" /\ E.img = SubSeq(ref, 1, 2) \o SubSeq(ref, 17, Len(ref))
